@@ -239,6 +239,11 @@ deriving Repr
 
 def isNumber : Item → Bool | .int _ | .flt _ | .jnum _ => true | _ => false
 
+/-- `parsableNumber(v)`: false for a json.Number that is neither an int64 nor a float64 -/
+def parsableNumber : Item → Bool
+  | .jnum t => (match Num.jcast t with | .bad => false | _ => true)
+  | _ => true
+
 /-- `exec.compareItems(node, left, right)` -/
 def compareItems (c : Ctx) (op : BinOp) (l r : Item) : CbOut :=
   match l, r with
@@ -251,6 +256,7 @@ def compareItems (c : Ctx) (op : BinOp) (l r : Item) : CbOut :=
     | none => .val .unknown none
   | .int _, _ | .flt _, _ | .jnum _, _ =>
     if isNumber r then
+      if !parsableNumber l || !parsableNumber r then .val .unknown none else
       match Num.compareNumeric l r with
       | some cmp => let (p, e) := applyCompare op cmp; .val p e
       | none => .panic
@@ -383,7 +389,8 @@ def executeUnaryBoolItem (c : Ctx) (item : ItemK) (bool : BoolK) (s : St) (op : 
     | .f => ⟨a.st, .t, none⟩
   | .isUnknown, some x =>
     let a := bool s x v false
-    ⟨a.st, predFrom (a.out = .unknown), none⟩
+    if a.err = some .cancelled then ⟨a.st, .unknown, a.err⟩
+    else ⟨a.st, predFrom (a.out = .unknown), none⟩
   | .exists, some x =>
     if !c.lax then
       let r := optUnwrapResultSilent c item s x v false (some [])
@@ -472,6 +479,10 @@ def execUnaryMathExpr (c : Ctx) (item : ItemK) (s : St) (operand : Option Node) 
       | some res => res
       | none => ⟨a.st, a.found, a.res, none⟩
 
+def nonFiniteItem : Item → Bool
+  | .flt d => d.isInf || d.isNaN
+  | _ => false
+
 /-- `exec.execBinaryMathExpr` -/
 def execBinaryMathExpr (c : Ctx) (item : ItemK) (s : St) (op : BinOp) (l r : Option Node)
     (nx : Option Node) (v : Item) (f : Found) : Res :=
@@ -488,7 +499,8 @@ def execBinaryMathExpr (c : Ctx) (item : ItemK) (s : St) (op : BinOp) (l r : Opt
         match Num.mathOp lv rv op with
         | .error _ => returnVerboseError rr.st f
         | .ok val =>
-          if nx.isNone && f.isNone then ⟨rr.st, f, .ok, none⟩
+          if nonFiniteItem val then returnVerboseError rr.st f
+          else if nx.isNone && f.isNone then ⟨rr.st, f, .ok, none⟩
           else executeNextItem c item rr.st nx val f
       | _ => returnVerboseError rr.st f
     | _ => returnVerboseError rl.st f
@@ -536,11 +548,11 @@ def convDouble : Item → Conv
   | .jnum t =>
     match Decimal.jnumFloat64 t with
     | .ok d => if nonFinite d then .verbose else .val (.flt d)
-    | .error _ => .hard .doubleArg
+    | .error _ => .verbose
   | .str t =>
     match Decimal.parseFloat t with
     | .ok d => if nonFinite d then .verbose else .val (.flt d)
-    | .error _ => .hard .doubleArg
+    | .error _ => .verbose
   | _ => .verbose
 
 def int32Check (i : Int) : Conv := if i > Num.maxInt32 || i < Num.minInt32 then .verbose else .val (.int i)
@@ -562,10 +574,10 @@ def convInteger : Item → Conv
     | .error _ => .verbose
   | _ => .verbose
 
-/-- the float64 range test of `.bigint()`: `val > MaxInt64 || val < MinInt64 || Inf || NaN`
+/-- the float64 range test of `.bigint()`: `val >= MaxInt64 || val < MinInt64 || Inf || NaN`
     (the constants are converted to float64, i.e. ±2^63) -/
 def bigintOutOfRange (d : F64) : Bool :=
-  F64.gt d F64.maxInt64F || F64.lt d F64.minInt64F || nonFinite d
+  F64.gt d F64.maxInt64F || F64.feq d F64.maxInt64F || F64.lt d F64.minInt64F || nonFinite d
 
 /-- `.bigint()` on a non-array -/
 def convBigInt : Item → Conv
@@ -886,20 +898,19 @@ def execAnyNode (c : Ctx) (item : ItemK) (any : AnyK) (s : St) (first last : Nat
     | _ => ⟨s1, f1, .notFound, none⟩
   if first = 0 then
     let r := executeNextItem c item { s with ignoreSE := true } nx v f
-    if r.err.isSome || (r.status = .ok && f.isNone) then restore r
+    if r.status = .failed || (r.status = .ok && f.isNone) then restore r
     else restore (descend r.st r.found)
   else descend s f
 
 /-! ## subscripts -/
 
-/-- `exec.getArrayIndex(node, value)`: index, or the error to pass to `returnError`;
-    `.error none` is the Go `(0, nil)`-with-failure path, which the caller reads as index 0. -/
+/-- `exec.getArrayIndex(node, value)`: index, or the error to pass to `returnError` -/
 def getArrayIndex (c : Ctx) (item : ItemK) (s : St) (n : Node) (v : Item) : St × Except Err Int :=
   let r := executeItem c item s n v (some [])
   if r.status = .failed then
     match r.err with
     | some e => (r.st, .error e)
-    | none => (r.st, .ok 0)            -- suppressed failure: `return 0, err` with err == nil
+    | none => (r.st, .error .verbose)   -- suppressed failure: reported as the subscript error
   else
     match r.found.getD [] with
     | [x] =>
@@ -944,7 +955,8 @@ structure IAcc where
   err : Option Err
   ret : Option Res
 
-/-- inner loop body: one selected element.  `brk` = the Go `break` (leaves the inner loop only) -/
+/-- inner loop body: one selected element (`brk` is unused since the D7 repair: failure and probe
+    success return from the function) -/
 def indexElemStep (c : Ctx) (item : ItemK) (nx : Option Node) (a : IAcc × Bool) (v : Item) : IAcc × Bool :=
   let (acc, brk) := a
   if brk || acc.ret.isSome then a else
@@ -955,7 +967,8 @@ def indexElemStep (c : Ctx) (item : ItemK) (nx : Option Node) (a : IAcc × Bool)
     else
       let r := executeNextItem c item acc.st nx v acc.found
       let acc' : IAcc := { acc with st := r.st, found := r.found, res := r.status, err := r.err }
-      if r.status = .failed || (r.status = .ok && acc.found.isNone) then (acc', true) else (acc', false)
+      if r.status = .failed || (r.status = .ok && acc.found.isNone) then ({ acc' with ret := some r }, brk)
+      else (acc', false)
 
 /-- outer loop body: one subscript -/
 def indexSubStep (c : Ctx) (item : ItemK) (nx : Option Node) (xs : List Item) (v : Item)
@@ -981,7 +994,7 @@ def execArrayIndex (c : Ctx) (item : ItemK) (s : St) (subs : List Node) (nx : Op
     let restore (st : St) : St := { st with innermost := s.innermost }
     match a.ret with
     | some r => { r with st := restore r.st }
-    | none => ⟨restore a.st, a.found, a.res, a.err⟩
+    | none => ⟨restore a.st, a.found, a.res, none⟩
 
 /-! ## node dispatch -/
 
@@ -1019,7 +1032,8 @@ def execUnaryNode (c : Ctx) (item : ItemK) (bool : BoolK) (any : AnyK) (s : St) 
       | none => ⟨{ s with panicked := true }, f, .failed, some .invalid⟩
       | some cond =>
         let p := executeNestedBoolItem bool s cond v
-        if p.out ≠ .t then ⟨p.st, f, .notFound, p.err⟩
+        if p.err.isSome then ⟨p.st, f, .failed, p.err⟩
+        else if p.out ≠ .t then ⟨p.st, f, .notFound, none⟩
         else executeNextItem c item p.st nx v f
   | .plus => execUnaryMathExpr c item s x nx v .self f
   | .minus => execUnaryMathExpr c item s x nx v .uminus f
